@@ -42,7 +42,7 @@ fn kind_str(k: &TokenKind) -> String {
         },
         TokenKind::Punctuation(p) => format!("P {}", code(p)),
         TokenKind::Decade => "D".into(),
-        TokenKind::Number(n) => format!("N {} {}", code(&n.value), n.suffix.map(|s| code(&s).to_string()).unwrap_or("-".into())),
+        TokenKind::Number(n) => format!("N {} {} {} {}", code(&n.value), n.suffix.map(|s| code(&s).to_string()).unwrap_or("-".into()), n.radix, n.precision),
         TokenKind::Space(n) => format!("S {n}"),
         TokenKind::Newline(n) => format!("L {n}"),
         TokenKind::EmailAddress => "E".into(),
@@ -60,19 +60,26 @@ struct KindMon {
     by_code: HashMap<String, TokenKind>,
     by_kind: HashMap<TokenKind, String>,
     violations: u64,
+    example: String,
 }
 impl KindMon {
     fn see(&mut self, k: &TokenKind) -> String {
         let s = kind_str(k);
         match self.by_code.get(&s) {
-            Some(k0) if k0 != k => self.violations += 1,
+            Some(k0) if k0 != k => {
+                self.violations += 1;
+                self.example = format!("{s}: {k0:?} vs {k:?}");
+            }
             Some(_) => {}
             None => {
                 self.by_code.insert(s.clone(), k.clone());
             }
         }
         match self.by_kind.get(k) {
-            Some(s0) if *s0 != s => self.violations += 1,
+            Some(s0) if *s0 != s => {
+                self.violations += 1;
+                self.example = format!("{k:?}: {s0} vs {s}");
+            }
             Some(_) => {}
             None => {
                 self.by_kind.insert(k.clone(), s.clone());
@@ -394,6 +401,39 @@ fn text_of(doc: &Document, sp: Span) -> String {
     src[sp.start.min(src.len())..sp.end.min(src.len())].iter().collect()
 }
 
+/// Why is `l` (of `doc`) hidden although it is not "the same lint" as any ignored one?  A known class is
+/// only named when the MODEL of the code as it is (`Variant::CURRENT` windows) also gives both lints the
+/// same context — i.e. the failure is the modelled behaviour; anything else is `only_other`.
+fn classify_only(phase: &str, l: &Lint, doc: &Document, ignored: &[(Lint, Document)]) -> (&'static str, String, Value) {
+    let nb = neighbourhood(l, doc);
+    let h = real_hash(l, doc);
+    let culprit = ignored.iter().find(|(i, d)| h.is_some() && real_hash(i, d) == h);
+    let len = l.span.end - l.span.start;
+    match culprit {
+        Some((i, d)) if same_report(i, l) => {
+            let (ni, nl) = (neighbourhood(i, d), nb.clone());
+            let modelled = Variant::CURRENT.mirror(i, d).1 == Variant::CURRENT.mirror(l, doc).1;
+            let diag = json!({"lint_len": len, "before_equal": ni.0 == nl.0, "flagged_equal": ni.1 == nl.1, "after_equal": ni.2 == nl.2,
+                              "lint_start": l.span.start, "ignored_start": i.span.start, "same_context_in_the_model": modelled});
+            let same_len = i.span.end - i.span.start == len;
+            let (class, what) = if !modelled {
+                ("only_other", format!("{phase}: lint {:?} {:?} is hidden together with the ignored lint {:?} although the model of LintContext::from_lint gives them different contexts", l.span, text_of(doc, l.span), i.span))
+            } else if ni.1 != nl.1 {
+                ("only_flattened", format!("{phase}: lint {:?} {:?} and the ignored lint {:?} {:?} flag different tokens, but prequel ++ problem ++ sequel is the same flat token list (the tokens are split differently between the three windows); the context does not record the window boundaries, so the second is hidden as well", l.span, text_of(doc, l.span), i.span, text_of(d, i.span)))
+            } else if ni.0 == nl.0 && ni.2 != nl.2 && len != 2 && same_len {
+                ("only_sequel_window", format!("{phase}: lint {:?} {:?} was never ignored and differs from the ignored lint {:?} in the tokens right after the flagged text, yet it is hidden: the sequel window [s+2,s+4) does not cover the two characters after the {len}-character flagged text, so the following tokens are not (all) part of the context", l.span, text_of(doc, l.span), i.span))
+            } else if ni.0 != nl.0 && ni.2 == nl.2 && l.span.start < 2 && i.span.start < 2 {
+                ("only_prequel_dropped", format!("{phase}: lint {:?} {:?} differs from the ignored lint {:?} in the tokens before it, yet it is hidden: with s < 2 the prequel window is dropped altogether", l.span, text_of(doc, l.span), i.span))
+            } else {
+                ("only_other", format!("{phase}: lint {:?} {:?} differs from every ignored lint in its neighbourhood, yet it is hidden (same stored context as ignored {:?})", l.span, text_of(doc, l.span), i.span))
+            };
+            (class, what, diag)
+        }
+        Some((i, _)) => ("only_other", format!("{phase}: lint {:?} differs in message/kind/suggestions from ignored {:?} and is hidden", l.span, i.span), Value::Null),
+        None => ("only_other", format!("{phase}: lint {:?} {:?} is hidden although no ignored lint has its context", l.span, text_of(doc, l.span)), Value::Null),
+    }
+}
+
 /// Explains a swallowed lint: every lint hidden by the list must be "the same lint" as one the user
 /// ignored — same message, kind, suggestions, flagged text and tokens within two characters.
 fn check_only(rep: &mut Report, _env: &mut Env, ignored: &[(Lint, Document)], all: &[Lint], kept: &[Lint], doc: &Document, inp: &Value, phase: &str) {
@@ -407,33 +447,12 @@ fn check_only(rep: &mut Report, _env: &mut Env, ignored: &[(Lint, Document)], al
             rep.count("only:hidden_lint_matches_an_ignored_one");
             continue;
         }
-        // diagnose: which ignored lint has the same stored context?
-        let h = real_hash(l, doc);
-        let culprit = ignored.iter().find(|(i, d)| real_hash(i, d) == h);
-        let len = l.span.end - l.span.start;
+        let (class, what, diag) = classify_only(phase, l, doc, ignored);
         let mut inp2 = inp.clone();
-        let (class, what) = match culprit {
-            Some((i, d)) if same_report(i, l) => {
-                let (ni, nl) = (neighbourhood(i, d), nb.clone());
-                let flat = |t: &(Vec<FatToken>, Vec<FatToken>, Vec<FatToken>)| t.0.iter().chain(t.1.iter()).chain(t.2.iter()).cloned().collect::<Vec<_>>();
-                let same_flat = flat(&ni) == flat(&nl);
-                inp2["diag"] = json!({"lint_len": len, "before_equal": ni.0 == nl.0, "flagged_equal": ni.1 == nl.1, "after_equal": ni.2 == nl.2,
-                                      "lint_start": l.span.start, "ignored_start": i.span.start, "same_tokens_split_differently": same_flat});
-                if same_flat {
-                    ("only_flattened", format!("{phase}: lint {:?} {:?} and the ignored lint {:?} {:?} have the same tokens before+under+after, split differently between the three windows; the context is one flat token list, so the second is hidden as well", l.span, text_of(doc, l.span), i.span, text_of(d, i.span)))
-                } else if ni.0 == nl.0 && ni.1 == nl.1 && ni.2 != nl.2 && len != 2 && i.span.end - i.span.start == len {
-                    ("only_sequel_window", format!("{phase}: lint {:?} {:?} was never ignored and differs from the ignored lint {:?} in the tokens right after the flagged text, yet it is hidden: the sequel window [s+2,s+4) does not cover the two characters after the {len}-character flagged text, so the following tokens are not (all) part of the context", l.span, text_of(doc, l.span), i.span))
-                } else if ni.0 != nl.0 && ni.1 == nl.1 && ni.2 == nl.2 && l.span.start < 2 && i.span.start < 2 {
-                    ("only_prequel_dropped", format!("{phase}: lint {:?} {:?} differs from the ignored lint {:?} in the tokens before it, yet it is hidden: with s < 2 the prequel window is dropped altogether", l.span, text_of(doc, l.span), i.span))
-                } else {
-                    ("only_other", format!("{phase}: lint {:?} {:?} differs from every ignored lint in its neighbourhood, yet it is hidden (same stored context as ignored {:?})", l.span, text_of(doc, l.span), i.span))
-                }
-            }
-            Some((i, _)) => ("only_other", format!("{phase}: lint {:?} differs in message/kind/suggestions from ignored {:?} and is hidden", l.span, i.span)),
-            None => ("only_other", format!("{phase}: lint {:?} {:?} is hidden although no ignored lint has its context", l.span, text_of(doc, l.span))),
-        };
-        let inp = &inp2;
-        rep.fail(class, what, inp.clone());
+        if !diag.is_null() {
+            inp2["diag"] = diag;
+        }
+        rep.fail(class, what, inp2);
     }
 }
 
@@ -581,9 +600,17 @@ fn run_scenario(rep: &mut Report, env: &mut Env, sc: &Scenario) {
         let same_blanked = blank_all(&ma) == blank_all(&mb);
         let mut inp2 = inp.clone();
         inp2["diag"] = json!({"contexts_equal_after_blanking_twin_loc": same_blanked, "twin_loc_of_a_context_quote_changed": twin_changed,
-                              "lint_len": len, "sequel_window_reaches_beyond_two_chars": sequel_reaches_far, "token_count_before": doc.get_tokens().len(), "token_count_after": doc3.get_tokens().len()});
+                              "lint_len": len, "lint_start_before": l.span.start, "lint_start_after": l3.span.start, "sequel_window_reaches_beyond_two_chars": sequel_reaches_far, "token_count_before": doc.get_tokens().len(), "token_count_after": doc3.get_tokens().len()});
         let (class, what) = if ma.priority != mb.priority {
             ("stable_other", format!("ignored lint {:?} returns after the edit with another priority", l.span))
+        } else if !same_blanked && (l.span.start < 2) != (l3.span.start < 2) && {
+            // the one that starts at offset >= 2 has a prequel window, the other has none; apart from that the contexts agree
+            let (short, long) = if l.span.start < 2 { (&ma, &mb) } else { (&mb, &ma) };
+            let (ls_, ld) = if l.span.start < 2 { (l3, &doc3) } else { (l, &doc) };
+            let npre = intersecting(ld, ls_.span.start - 2, ls_.span.start).len();
+            blank_all(long)[npre.min(long.tokens.len())..] == blank_all(short)[..]
+        } {
+            ("stable_prequel_dropped", format!("ignored lint {:?} {:?} is reported again after an edit elsewhere: flagged text and the tokens within two characters are untouched, but one of the two versions starts at offset < 2, where the prequel window is dropped altogether, and the other does not", l.span, text_of(&doc, l.span)))
         } else if same_blanked && twin_changed {
             ("stable_twin_loc", format!("ignored lint {:?} {:?} is reported again after an edit elsewhere: flagged text and the tokens within two characters are untouched, but a quotation mark in the context carries twin_loc (an absolute token index), which the edit shifted", l.span, text_of(&doc, l.span)))
         } else if !same_blanked && len < 2 && sequel_reaches_far {
@@ -721,7 +748,7 @@ fn run_wasm(rep: &mut Report, sc: &Scenario) {
     inp["kind"] = json!("wasm");
     let lang = || if sc.lang == "markdown" { Language::Markdown } else { Language::Plain };
     let r = guarded(|| {
-        let mut fails: Vec<(&'static str, String)> = vec![];
+        let mut fails: Vec<(&'static str, String, Value)> = vec![];
         let mut w = WL::new(WD::American);
         let before = w.lint(sc.text.clone(), lang());
         if before.is_empty() {
@@ -744,7 +771,7 @@ fn run_wasm(rep: &mut Report, sc: &Scenario) {
         let after: Vec<Lint> = w.lint(sc.text.clone(), lang()).iter().filter_map(wasm_inner).collect();
         for i in &chosen {
             if after.contains(&inner[*i]) {
-                fails.push(("hides", format!("wasm: ignored lint {:?} is still returned by lint()", inner[*i].span)));
+                fails.push(("hides", format!("wasm: ignored lint {:?} is still returned by lint()", inner[*i].span), Value::Null));
             }
         }
         // hidden lints are explained by an ignored one (same report, same neighbourhood)
@@ -754,7 +781,9 @@ fn run_wasm(rep: &mut Report, sc: &Scenario) {
             if !after.contains(l) {
                 let ok = chosen.iter().any(|i| same_report(&inner[*i], l) && neighbourhood(&inner[*i], &doc) == neighbourhood(l, &doc));
                 if !ok {
-                    fails.push(("only_wasm", format!("wasm: lint {:?} {:?} was not ignored, differs from every ignored lint, and is hidden", l.span, l.message)));
+                    let ign: Vec<(Lint, Document)> = chosen.iter().map(|i| (inner[*i].clone(), doc.clone())).collect();
+                    let (class, what, diag) = classify_only("wasm", l, &doc, &ign);
+                    fails.push((class, what, diag));
                 }
             }
         }
@@ -762,11 +791,11 @@ fn run_wasm(rep: &mut Report, sc: &Scenario) {
         let js = w.export_ignored_lints();
         let mut w2 = WL::new(WD::American);
         if let Err(e) = w2.import_ignored_lints(js.clone()) {
-            fails.push(("roundtrip", format!("wasm: exported list does not import: {e}")));
+            fails.push(("roundtrip", format!("wasm: exported list does not import: {e}"), Value::Null));
         }
         let after2: Vec<Lint> = w2.lint(sc.text.clone(), lang()).iter().filter_map(wasm_inner).collect();
         if after2 != after {
-            fails.push(("roundtrip", "wasm: a fresh linter with the imported list reports different lints".into()));
+            fails.push(("roundtrip", "wasm: a fresh linter with the imported list reports different lints".into(), Value::Null));
         }
         let _ = w2.import_ignored_lints(js.clone());
         let set = |s: &str| -> Vec<u64> {
@@ -776,12 +805,12 @@ fn run_wasm(rep: &mut Report, sc: &Scenario) {
             o
         };
         if set(&w2.export_ignored_lints()) != set(&js) {
-            fails.push(("roundtrip", "wasm: export/import/export changed the list".into()));
+            fails.push(("roundtrip", "wasm: export/import/export changed the list".into(), Value::Null));
         }
         w2.clear_ignored_lints();
         let after3: Vec<Lint> = w2.lint(sc.text.clone(), lang()).iter().filter_map(wasm_inner).collect();
         if after3 != inner {
-            fails.push(("clear", "wasm: after clear_ignored_lints the original lints are not all reported".into()));
+            fails.push(("clear", "wasm: after clear_ignored_lints the original lints are not all reported".into(), Value::Null));
         }
         (fails, inner.len(), n_ign)
     });
@@ -789,8 +818,12 @@ fn run_wasm(rep: &mut Report, sc: &Scenario) {
         Ok((fails, n, k)) => {
             rep.count(&format!("wasm:lints:{}", bucket(n)));
             rep.count(&format!("wasm:ignored:{}", bucket(k)));
-            for (c, w) in fails {
-                rep.fail(c, w, inp.clone());
+            for (c, w, diag) in fails {
+                let mut i2 = inp.clone();
+                if !diag.is_null() {
+                    i2["diag"] = diag;
+                }
+                rep.fail(c, w, i2);
             }
         }
         Err(_) => rep.count("wasm:panicked(C01's business)"),
@@ -867,6 +900,9 @@ fn run_ls(rep: &mut Report, sc: &Scenario) {
             }
             let src: Vec<char> = st.document.get_source().to_vec();
             let rg = span_to_range(&src, Span { start: l.span.start, end: l.span.start + 1 });
+            if lsx::pos_conv::range_to_span(&src, rg).start != l.span.start {
+                continue; // position conversion does not round-trip on this text (lone CR etc.): C08's business
+            }
             let got = st.generate_code_actions(rg, &cfg).len();
             let probe = Span { start: l.span.start, end: l.span.start + 1 };
             let mut want = 0;
@@ -1323,7 +1359,7 @@ fn main() {
     rep.monitor("token-kind encoding: violations of injectivity", env.km.violations);
     rep.monitor("token kinds encoded", env.km.by_code.len() as u64);
     if env.km.violations > 0 {
-        rep.fail("encoding", "the harness's encoding of token kinds is not injective on the kinds seen".into(), json!({"kind": "none"}));
+        rep.fail("encoding", format!("the harness's encoding of token kinds is not injective on the kinds seen: {}", env.km.example), json!({"kind": "none"}));
     }
     rep.extra.insert("c_cases".into(), json!(env.c_cases));
     rep.extra.insert("x_cases".into(), json!(env.x_cases));
